@@ -4,7 +4,7 @@ from vf.verify import Contract, Case
 from vf.inputs import Inputs, term, same
 from vf import logic as L
 from vf.explore import cur
-from vf.effects import note
+from vf.effects import note, effect, Fault, ok
 from contracts import stubs
 stubs.install_driver_stubs()
 from pony.orm import core, dbapiprovider as dp
@@ -63,21 +63,31 @@ def _pool_case(cfg, values):
         fresh = RecCon('fresh')
 
         def _connect():
-            note('_connect'); pool.con = fresh
+            effect('_connect', (Fault,))()          # opening the child's own connection may fail (transient driver error)
+            pool.con = fresh
         pool._connect = _connect
         st.update(pool=pool, parent=parent, fresh=fresh)
-        r = pool.connect()
+        try:
+            r = pool.connect()
+        except Fault:
+            note('retry')
+            r = pool.connect()                      # the application retries
         st['forked'] = list(dp.Pool.forked_connections)
         return r
     return Case(call, I.terms, I.pre, setup, teardown)
 
 
 def _pool_spec(cfg, i, path):
-    if path.outcome != 'ret': return False
     st = path.state
-    con, is_new = path.value
     pool, parent, fresh = st['pool'], st['parent'], st['fresh']
-    connected = any(g[0] == '_connect' for g in path.ghost)
+    if path.outcome == 'exc' and isinstance(path.value, Fault):
+        # both attempts failed: still, the parent's connection must be untouched and not reachable through the pool
+        pool, parent = st['pool'], st['parent']
+        if not cfg['has_con']: return True
+        differs = L.Not(L.Eq(i['recorded_pid'], i['current_pid']))
+        return L.Implies(differs, parent._uses == [] and pool.con is not parent)
+    con, is_new = path.value
+    connected = bool(ok(path.ghost, '_connect'))
     pid_recorded = same(pool.pid, i['current_pid'])
     if not cfg['has_con']:
         return con is fresh and is_new is True and connected and pid_recorded
@@ -97,7 +107,7 @@ def _ora_case(cfg, values):
     def setup(run):
         ora.os.getpid = lambda: (note('getpid'), p1)[1]
         ora.OraPool.forked_pools = []
-        cx_Oracle.SessionPool = lambda **kw: (note('SessionPool()'), RecCon('fresh_pool'))[1]
+        cx_Oracle.SessionPool = lambda **kw: (effect('SessionPool()', (Fault,))(), RecCon('fresh_pool'))[1]
 
     def teardown(run):
         ora.os.getpid = real_getpid
@@ -111,19 +121,24 @@ def _ora_case(cfg, values):
         parent = RecCon('parent_pool')
         pool.cx_pool = parent; pool.pid = p0
         st.update(pool=pool, parent=parent)
-        r = pool.connect()
+        try:
+            r = pool.connect()
+        except Fault:
+            note('retry')
+            r = pool.connect()                      # the application retries after a transient failure
         st['forked'] = list(ora.OraPool.forked_pools)
         return r
     return Case(call, I.terms, I.pre, setup, teardown)
 
 
 def _ora_spec(cfg, i, path):
-    if path.outcome != 'ret': return False
     st = path.state
     pool, parent = st['pool'], st['parent']
-    con, is_new = path.value
     differs = L.Not(L.Eq(i['recorded_pid'], i['current_pid']))
-    created = any(g[0] == 'SessionPool()' for g in path.ghost)
+    if path.outcome == 'exc':
+        return L.And(isinstance(path.value, Fault), L.Implies(differs, parent._uses == []))
+    con, is_new = path.value
+    created = bool(ok(path.ghost, 'SessionPool()'))
     forked_case = (created and pool.cx_pool is not parent and parent._uses == [] and same(pool.pid, i['current_pid'])
                    and any(c is parent for c, _ in st['forked']) and con._name.startswith('fresh_pool'))
     same_case = (not created and pool.cx_pool is parent and parent._uses == ['acquire'] and st['forked'] == [])
@@ -132,8 +147,9 @@ def _ora_spec(cfg, i, path):
 
 CONTRACTS = [
     Contract('Pool.connect', ['pony.orm.dbapiprovider:Pool.connect'], _pool_configs, _pool_case,
-             [('never_returns_or_touches_a_connection_of_another_process', _pool_spec)],
+             [('never_returns_or_touches_a_connection_of_another_process', _pool_spec)], allowed_exc=(Fault,),
              doc='all integer pids (symbolic); SQLitePool and PGPool inherit connect'),
     Contract('OraPool.connect', ['pony.orm.dbproviders.oracle:OraPool.connect'], [dict()], _ora_case,
-             [('never_uses_the_session_pool_of_another_process', _ora_spec)]),
+             [('never_uses_the_session_pool_of_another_process', _ora_spec)], allowed_exc=(Fault,),
+             doc='creating the child\'s own session pool may fail; the application retries once'),
 ]
